@@ -143,6 +143,10 @@ def model_op(op):
             # positional items first, then the keyword items, one assignment each
             pairs = pairs + list(dict(dpairs(op[3])).items())
         return (name, pairs)
+    if name in ('update_self', 'ior_self'):
+        return ('noop',)
+    if name == 'update_bad':
+        return ('update_bad', dpairs(op[1]))
     if name in ('eq', 'ne'):
         if len(op) > 2 and op[2].replace('_reflected', '') in NOT_A_MAPPING:
             return (name, [(('not', 'a', 'mapping'), 0)])      # compares unequal whatever the contents
@@ -283,6 +287,15 @@ def exec_op(c, op, ctx):
             return ('ok', ('keys', len(ks), d)), None
         if name in ('eq', 'ne'):
             return ('ok', compare(c, name, dpairs(op[1]), op[2] if len(op) > 2 else 'dict')), None
+        if name == 'update_bad':
+            c.update(dpairs(op[1]) + [('not-a-pair',)])
+            return ('ok', 'update() accepted a malformed sequence'), None
+        if name == 'update_self':
+            c.update(c)
+            return ('ok', None), None
+        if name == 'ior_self':
+            r = operator.ior(c, c)
+            return ('ok', None if r is c else 'ior-returned-another-object'), None
         if name == 'eqself':
             return ('ok', c == c), None
         if name == 'copy':
